@@ -307,7 +307,10 @@ def export_slice(slize: Slice) -> vckt.Slice:
 def export_concat(concat: Concat) -> vckt.Concat:
     """Export (potentially recursive) Signal Concatenations"""
     pconc = vckt.Concat()
-    for part in concat.parts:
+    # Hdl21 `Concat`s list their least-significant part first.
+    # VLSIR netlisters write busses most-significant bit first, and `Concat` parts in order,
+    # i.e. the first part of a VLSIR `Concat` is its most significant. Export in reverse.
+    for part in reversed(concat.parts):
         pconc.parts.append(export_connection_target(part))
     return pconc
 
